@@ -1,4 +1,5 @@
 import Afkak.Monitor.C16
+import Afkak.Monitor.C16Leave
 /-!
 # C16 — full-strength statements that are NOT proved (and why)
 
@@ -23,5 +24,18 @@ def C16_after_stop_called_only_leave : Prop := ∀ (cfg : Cfg) (evs : List Ev), 
     user `stop()` while a rejoin's `on_join_prepare` is draining finds `self.consumers` empty, goes
     straight to `Coordinator.stop`, and cancelling the join kills the draining consumers mid-shutdown. -/
 def C16_graceful_drain : Prop := ∀ (cfg : Cfg) (evs : List Ev), gracefulDrain (toMSteps (run cfg evs)) = true
+
+/-- The LeaveGroup request ends the member's generation: it is observed only in a step after which NO
+    partition consumer is running or draining (monitor `leaveAfterDrain`).  FALSE of the code
+    (`C16_leave_after_drain_counterexample`): the nested `self.stop(error)` of a fatal error arriving
+    while a user `stop()` still drains the consumers is not refused (`_stopping` is set only by
+    `Coordinator.stop`), finds `self.consumers` empty and leaves the group at once (known finding
+    `fatal-error-stop-leaves-while-stop-drains`; a second USER `stop()` did the same — fixed, it is
+    refused now: `userStop`); and a `stop()` while a rejoin's `on_join_prepare` drains does the same
+    (known finding `stop-kills-consumers-draining-for-rejoin`).  Proved instead
+    (`C16_leave_after_drain_partial`): once `Coordinator.stop` has begun, outside those two situations
+    every consumer has stopped. -/
+def C16_leave_after_drain : Prop :=
+  ∀ (cfg : Cfg) (evs : List Ev), Afkak.Monitor.C16Leave.leaveAfterDrain (toMSteps (run cfg evs)) = true
 
 end Afkak.Props.C16.Open
